@@ -1,3 +1,4 @@
+import XPathV.Lemmas.PullProofs
 import XPathV.Generated.ExtraFacts
 import XPathV.Model.Api
 import XPathV.Lemmas.Facts
@@ -65,5 +66,13 @@ theorem verdict_is_local (d : Doc) (cfg : ECfg) (inp pred : Plan) (c : Ref) (out
 filtered (the flags passed to a filter's input mask out SmartDesc), and the model follows the source -/
 theorem smartdesc_stops_at_filters : Generated.filterInputFlagsSrc = "(flags|flagsEnum.Filter)&^flagsEnum.SmartDesc" ∧
     Model.smartDescThroughFilterFromSource = false := ⟨rfl, by decide +kernel⟩
+
+/-- **state reset protocol, on the pull machine**: from *any* state (whatever was pulled before,
+however far), `Evaluate` followed by a drain yields the whole sequence again — exactly what a fresh
+clone yields.  This is why the verdict for one candidate cannot depend on earlier candidates. -/
+theorem evaluate_restarts_from_any_state (d : Doc) (cfg : ECfg) (cur : Ref) (q : PQ) :
+    rem d cfg cur q.evaluate = rem d cfg cur q.clone ∧
+    ∃ l, sel (F := F) d cfg q.plan cur = .ok l ∧ ∃ q' f0, ∀ f, f0 ≤ f → drain d cfg cur f q.evaluate = some (l, q') :=
+  ⟨evaluate_resets d cfg cur q, drain_evaluate d cfg cur q⟩
 
 end XPathV.Theorems.C02
